@@ -126,6 +126,7 @@ func checkC05(e *Engine, r *Report) {
 		return
 	}
 	checkUpdateReasserts(e, r)
+	checkPendingBookkeeping(e, r)
 	getPendingRequest := r.Anchor(pkgCA, "container.getPendingRequest")
 	markPending := r.Anchor(pkgCA, "container.markPending")
 	cacheMarkPending := r.Anchor(pkgCA, "cache.markPending")
